@@ -644,7 +644,7 @@ void Poll::add(int fd, short events) {
   struct pollfd pfd;
   pfd.fd = fd;
   pfd.events = events;
-  auto insert_it = upper_bound(this->poll_fds.begin(), this->poll_fds.end(),
+  auto insert_it = lower_bound(this->poll_fds.begin(), this->poll_fds.end(),
       pfd, pred);
   if (insert_it != this->poll_fds.end() && insert_it->fd == fd) {
     insert_it->events = events;
